@@ -1,1 +1,61 @@
-From RC Require Import SafeFinalProps.
+(** C13 - "[Cc::try_unwrap] returns the value exactly when the caller is the only owner and no
+    collector phase is running; then the value is moved out (not dropped), the allocation is freed
+    at once and Weak handles see a dead target; otherwise nothing changes".
+    Statements only; every proof is [exact <lemma of SafeProps.v>].  State-level ([SInv], [NoBad]
+    of InvP.v), for every configuration [K]. *)
+From Coq Require Import NArith Bool List Lia.
+From stdpp Require Import base list option.
+From RecordUpdate Require Import RecordSet.
+From RC Require Import Hdr Machine RunInd Inv InvP SafeMain SafeProps Pass PassMain SafeFinalPropsA SafeFinalProps.
+Import ListNotations RecordSetNotations.
+Local Open Scope N_scope.
+
+(** uniquely owned, no collector phase: Ok; the log only grows by allocator events (no callback
+    runs, in particular no Drop), the box is freed with its layout, the value is [VMoved] and
+    recorded in the value slot, a surviving side record is no longer accessible, the object left the
+    buffer *)
+Theorem C13_try_unwrap_ok :
+  forall (K : conf) (b : bool) (E : list id) (self : option id) (l : loc) (v : nat) (m : machine) (r : rloc)
+         (o : id) (x : obj),
+  NoBad m -> SInv K b E [] m -> resolve self l m = (m, Some r) -> values m !! v = Some None ->
+  read_loc r m = Some o -> get m o = Some x -> o_box x = BAlloc -> h_rc (o_hdr x) = 1 ->
+  st_collecting m || st_dropping m || (k_fin K && st_finalizing m) = false ->
+  exists mf : machine, cmd_try_unwrap K self l v m = ok mf RUnwrapOk /\
+    (exists l' : list event, log mf = l' ++ log m /\
+       forallb (fun e : event => match e with EFree _ _ _ | ESFree _ | EBad _ _ => true | _ => false end) l' = true) /\
+    In (EFree o (box_layout K x).1 (box_layout K x).2) (log mf) /\
+    (exists y : obj, get mf o = Some y /\ o_vst y = VMoved /\ o_box y = BFreed /\
+               (forall s : side, o_side y = Some s -> sd_freed s = false -> w_acc (sd_wk s) = false)) /\
+    o ∉ pc mf /\ values mf !! v = Some (Some o).
+Proof. exact SafeProps.try_unwrap_ok. Qed.
+Print Assumptions C13_try_unwrap_ok.
+
+(** not uniquely owned, or a collector phase is running: Err, the state is unchanged (no
+    invariant needed) *)
+Theorem C13_try_unwrap_err :
+  forall (K : conf) (self : option id) (l : loc) (v : nat) (m : machine) (r : rloc) (o : id),
+  resolve self l m = (m, Some r) -> values m !! v = Some None -> read_loc r m = Some o ->
+  (h_rc (hdr_of m o) <> 1 \/ st_collecting m || st_dropping m || (k_fin K && st_finalizing m) = true) ->
+  cmd_try_unwrap K self l v m = ok m RUnwrapErr.
+Proof. exact SafeProps.try_unwrap_err. Qed.
+Print Assumptions C13_try_unwrap_err.
+
+(** ** Pins *)
+Check C13_try_unwrap_ok :
+  forall (K : conf) (b : bool) (E : list id) (self : option id) (l : loc) (v : nat) (m : machine) (r : rloc)
+         (o : id) (x : obj),
+  NoBad m -> SInv K b E [] m -> resolve self l m = (m, Some r) -> values m !! v = Some None ->
+  read_loc r m = Some o -> get m o = Some x -> o_box x = BAlloc -> h_rc (o_hdr x) = 1 ->
+  st_collecting m || st_dropping m || (k_fin K && st_finalizing m) = false ->
+  exists mf : machine, cmd_try_unwrap K self l v m = ok mf RUnwrapOk /\
+    (exists l' : list event, log mf = l' ++ log m /\
+       forallb (fun e : event => match e with EFree _ _ _ | ESFree _ | EBad _ _ => true | _ => false end) l' = true) /\
+    In (EFree o (box_layout K x).1 (box_layout K x).2) (log mf) /\
+    (exists y : obj, get mf o = Some y /\ o_vst y = VMoved /\ o_box y = BFreed /\
+               (forall s : side, o_side y = Some s -> sd_freed s = false -> w_acc (sd_wk s) = false)) /\
+    o ∉ pc mf /\ values mf !! v = Some (Some o).
+Check C13_try_unwrap_err :
+  forall (K : conf) (self : option id) (l : loc) (v : nat) (m : machine) (r : rloc) (o : id),
+  resolve self l m = (m, Some r) -> values m !! v = Some None -> read_loc r m = Some o ->
+  (h_rc (hdr_of m o) <> 1 \/ st_collecting m || st_dropping m || (k_fin K && st_finalizing m) = true) ->
+  cmd_try_unwrap K self l v m = ok m RUnwrapErr.
